@@ -2330,6 +2330,26 @@ func runC19(c *core.Ctx) {
 		runFileCase(c, fc, "file/boundary")
 	}
 
+	// the variant column below repeated / optional groups (nested.go)
+	nNested := c.N(400, 12000)
+	for i := 0; i < nNested; i++ {
+		nc := g.nested(i)
+		runNestedCase(c, nc, fmt.Sprintf("nested/%s/%s/%s", nc.Nest, nc.Write, nc.Path))
+		if i < 2 {
+			c.Sample(nc)
+		}
+	}
+	// the seeded shape: arrays of arrays through a shredded list below each nesting
+	for _, nest := range []string{"rep", "list", "repvar", "optrep"} {
+		for _, path := range []string{"writer", "buffer", "rows"} {
+			for _, write := range []string{"typed", "raw"} {
+				nc := &nestCase{Mode: "nested", Schema: "LPi3", Nest: nest, PageV: 1 + c.Rng.Intn(2), Write: write, Path: path,
+					Rows: []nestRow{{Items: []string{"[i3:1,i3:2,i3:3]", "[i3:4,i3:5]"}}, {Items: []string{}}, {Items: []string{"[i3:6]", "s6e6f742061206c697374", "[i3:7,i3:8]"}}}}
+				runNestedCase(c, nc, "nested/corpus")
+			}
+		}
+	}
+
 	// vm_compute sample
 	c.Vm("From Coq Require Import List ZArith NArith Bool.\nFrom PQ Require Import Base.Bytes Variant.Model Variant.Shred.\nImport ListNotations.\nOpen Scope N_scope.")
 	c.Vm("Fixpoint veqb (a b : value) {struct a} : bool :=\n  match a, b with\n  | VNull, VNull => true\n  | VBool x, VBool y => Bool.eqb x y\n  | VInt k x, VInt k' y => (int_id k =? int_id k') && Z.eqb x y\n  | VFlt k x, VFlt k' y => (flt_id k =? flt_id k') && (x =? y)\n  | VDec k s x, VDec k' s' y => (dec_id k =? dec_id k') && (s =? s') && Z.eqb x y\n  | VBinary x, VBinary y => beq x y\n  | VString x, VString y => beq x y\n  | VUuid x, VUuid y => beq x y\n  | VArray l, VArray l' => (fix go (l l' : list value) : bool := match l, l' with [] , [] => true | x :: r, y :: r' => veqb x y && go r r' | _, _ => false end) l l'\n  | VObject l, VObject l' => (fix go (l : list (bytes * value)) (l' : list (bytes * value)) : bool := match l, l' with [] , [] => true | (k, x) :: r, (k', y) :: r' => beq k k' && veqb x y && go r r' | _, _ => false end) l l'\n  | _, _ => false\n  end.")
